@@ -282,6 +282,55 @@ def run_op(d, op, by, n, groups, cells, rec):
             finally:
                 d._group_colnames = ()
         return None
+    if op == "aggregate-mutating":
+        # an "arbitrary lambda" that overwrites the group it was handed: summaries listed after it are still
+        # computed from the rows of the group, and the frame itself is untouched (checked by the caller)
+        def mut(g):
+            n = g.nrow
+            g.x[:] = 0.0
+            g.id[:] = -1
+            g.b[:] = False
+            return n
+        out = d.group_by(*by).aggregate(z=mut, s=di.sum("x"), lo=di.min("id"), f=di.first("id"), a=di.any("b"), cu=di.count_unique("x"))
+        rec.state(V.frame_key(out))
+        msg = check_keys(out, by, groups)
+        if msg:
+            return msg
+        zs, ss, los, fs, as_, cus = (V.cells(out[c]) for c in ("z", "s", "lo", "f", "a", "cu"))
+        for gi, g in enumerate(groups):
+            xs = [cells["x"][i] for i in g[1]]
+            want_s = sum(v for v in xs if v is not None)
+            want_cu = len({v for v in xs if v is not None}) + sum(1 for v in xs if v is None)
+            cu_ok = cus[gi] == want_cu or (sum(1 for v in xs if v is None) >= 2 and cus[gi] == len({v for v in xs if v is not None}) + 1)
+            if (zs[gi] != len(g[1]) or not V.same_value(ss[gi], want_s, tol=True) or los[gi] != min(g[1]) or fs[gi] != g[1][0]
+                    or bool(as_[gi]) != any(cells["b"][i] for i in g[1]) or not cu_ok):
+                return (f"group {g[0]} rows {g[1]}: after a summarising function that overwrites the group it was given, "
+                        f"z={zs[gi]} sum(x)={ss[gi]} min(id)={los[gi]} first(id)={fs[gi]} any(b)={as_[gi]} count_unique(x)={cus[gi]}; "
+                        f"expected {len(g[1])}, {want_s}, {min(g[1])}, {g[1][0]}, {any(cells['b'][i] for i in g[1])}, {want_cu}")
+        rec.outcome(("mutating", tuple(zs)))
+        return None
+    if op == "modify-mutating":
+        def mut(g):
+            n = g.nrow
+            g.x[:] = 0.0
+            g.id[:] = -1
+            return np.full(n, n)
+        out = d.group_by(*by).modify(z=mut)
+        rec.state(V.frame_key(out))
+        if out.nrow != n:
+            return f"grouped modify returned {out.nrow} rows for {n}"
+        for nm in cells:
+            if not V.same_cells(V.cells(out[nm]), cells[nm]):
+                return f"column {nm!r} of the result changed by a group-wise function that overwrites the group it was given: {V.cells(out[nm])}"
+        of = {}
+        for g in groups:
+            for i in g[1]:
+                of[i] = len(g[1])
+        zs = V.cells(out["z"])
+        if zs != [of[i] for i in range(n)]:
+            return f"grouped modify: z={zs}, expected group sizes {[of[i] for i in range(n)]}"
+        rec.outcome(("modify-mutating", tuple(zs)))
+        return None
     if op == "aggregate-reentrant":
         # the summarising function itself groups and aggregates (the group it was given, and an unrelated frame),
         # and sorts / uniques inside: per-call scratch state of the outer aggregate must survive that
@@ -324,7 +373,7 @@ def run_op(d, op, by, n, groups, cells, rec):
 
 
 def all_ops():
-    return ["aggregate-core", "count", "split", "modify", "aggregate-reentrant"] + [f"helper:{j}" for j in range(len(HELPERS))]
+    return ["aggregate-core", "count", "split", "modify", "aggregate-reentrant", "aggregate-mutating", "modify-mutating"] + [f"helper:{j}" for j in range(len(HELPERS))]
 
 
 def run_shard(shard, rec):
@@ -344,7 +393,7 @@ def run_shard(shard, rec):
         kind, length = shard["kind"], shard["length"]
         alpha = V.alphabet(kind, "key")
         # (long groups hold several missing payload values: shorthand and lambda must still agree, e.g. count_unique)
-        core = ["aggregate-core", "count", "split", "modify", "helper:4", "helper:5", "helper:6", "helper:10", "helper:11", "helper:17", "aggregate-reentrant"]
+        core = ["aggregate-core", "count", "split", "modify", "helper:4", "helper:5", "helper:6", "helper:10", "helper:11", "helper:17", "aggregate-reentrant", "aggregate-mutating", "modify-mutating"]
         for p in range(1, shard["period"] + 1):
             for pat in itertools.product(alpha, repeat=p):
                 toks = [pat[i % p] for i in range(length)]
@@ -354,7 +403,7 @@ def run_shard(shard, rec):
         k1, k2 = shard["kinds"]
         a1, a2 = V.alphabet(k1, "key"), V.alphabet(k2, "key")
         n = shard["n"]
-        core = ["aggregate-core", "count", "split", "modify", "helper:5", "helper:11", "aggregate-reentrant"]
+        core = ["aggregate-core", "count", "split", "modify", "helper:5", "helper:11", "aggregate-reentrant", "aggregate-mutating", "modify-mutating"]
         lens = range(0, n + 1) if shard["first"] is None else [n]
         for m in lens:
             for t1 in itertools.product(a1, repeat=m):
